@@ -216,6 +216,12 @@ Section Build.
     | _ :: _ =>
         (mkSt3 (t_banks t) (t_defaulted t) types seen2 (t_in_spans t) (t_errs t ++ pre), sigs, defaults)
     | [] =>
+        (* initial values obey the width rules too: checked against the resolved constants *)
+        match check f (fun k => match lookup consts k with Some v => Some (wd v) | None => None end)
+                    (lookup consts) dflt with
+        | Err es =>
+            (mkSt3 (t_banks t) (t_defaulted t) types seen2 (t_in_spans t) (t_errs t ++ es), sigs, defaults)
+        | Ok _ =>
         match eval f (lookup consts) dflt with
         | Ok v =>
             let e_w := match wcombine (wd v) w with
@@ -226,6 +232,7 @@ Section Build.
              sigs ++ [(in_name, out_name, w)], upd defaults out_name (as_width w v))
         | Err es =>
             (mkSt3 (t_banks t) (t_defaulted t) types seen2 (t_in_spans t) (t_errs t ++ es), sigs, defaults)
+        end
         end
     end.
 
@@ -384,7 +391,8 @@ Section Build.
         let needed := fold_left (fun l x => add_set x l) (all_in_names (t_banks t)) (s_needed s) in
         let errs4 := t_errs t ++ unset_errors s t needed in
         let widths := fold_left (fun m nv => upd m (fst nv) (wd (snd nv))) consts widths1 in
-        let known := known_banks ++ map fst consts in
+        (* a control signal the program leaves unassigned is 0 throughout: a known value *)
+        let known := known_banks ++ t_defaulted t ++ map fst consts in
         match errs4 with
         | _ :: _ => Err errs4
         | [] =>
